@@ -145,6 +145,17 @@ inline constexpr void convert_type_fundamental_or_array(T_To& to,
                                      "convert_type_fundamental_or_array "
                                      "does not allow arrays of pointers");
   }
+  else if_constexpr_named(cond4,
+                          !is_fundamental_or_enum_v<T_To_El> ||
+                            !is_fundamental_or_enum_v<T_From_El>)
+  {
+    // (the element-wise conversion below makes this check, but the verbatim
+    // copy does not: an array of structs that hold pointers, or of wrappers,
+    // would otherwise be copied raw)
+    rlbox_detail_static_fail_because(
+      cond4, "Conversion of arrays is only allowed for arrays of fundamental or "
+             "enum types");
+  }
   else
   {
     // Explicitly using size to check for element type as we may be going across
@@ -244,6 +255,11 @@ inline constexpr void convert_type_non_class(
     }
 
   } else if constexpr (is_pointer_v<T_To_El> || is_pointer_v<T_From_El>) {
+
+    // The loop below walks the destination's extent: the source must have the
+    // same shape, or it is read past its end
+    static_assert(all_extents_same<T_To_C, T_From_C>,
+                  "Conversion between arrays should have same dimensions");
 
     if constexpr (Direction == adjust_type_direction::NO_CHANGE) {
       // Sanity check - this should definitely be true
